@@ -387,15 +387,6 @@ theorem trunc_intCast (i : Int) : trunc (i : Rat) = i := by
   · have : (-(i : Rat)) = ((-i : Int) : Rat) := by simp
     rw [this, Rat.floor_intCast]; omega
 
-/-- the numeric-ordinal ("identity") transformer is only used on homogeneous sequences: all
-`int` or all `float` (`convert_to_skopt_dim`; a mixed sequence would come back as floats) -/
-def Hp.wfTr (h : Hp) : Bool :=
-  match h.dim, h.tr with
-  | .cat cs, .identity =>
-    cs.all (fun c => match c with | .int _ => true | _ => false) ||
-    cs.all (fun c => match c with | .real _ => true | _ => false)
-  | _, _ => true
-
 theorem trDim_tok {ne : NumEnv} {h : Hp} {v : Val} (hwt : h.wfTr = true) (hm : memDim h.dim v = true) :
     TokDim ne h (trDim ne h v) ∧ TokDim ne h (clipSlice (tBounds ne h) (trDim ne h v)) := by
   obtain ⟨name, dim, tr, cond, enc⟩ := h
@@ -485,9 +476,6 @@ theorem tr_tokAll {ne : NumEnv} : ∀ {hps : List Hp} {x : List Val},
     have h2 := tr_tokAll (ne := ne) (fun h' hh => hw h' (List.mem_cons_of_mem _ hh)) hd.2
     simp only [List.zipWith_cons_cons, TokAll, clipAll]
     exact ⟨⟨h1.1, h2.1⟩, ⟨h1.2, h2.2⟩⟩
-
-/-- well-formedness used by the theorems: non-empty dimensions, homogeneous numeric ordinals -/
-def Decl.wfAll (d : Decl) : Bool := d.wf && d.hps.all (fun h => h.wfTr)
 
 /-- **the transform of a member is an admissible transformed row** -/
 theorem tr_tok {ne : NumEnv} {d : Decl} {c : Config} (hw : d.wfAll = true)
